@@ -57,7 +57,7 @@ CLAIMS['C03'] = {
     'text': 'Reader.tla models packet-buffer creation, auto-detection (peek / rewind / resync) and per-packet reads against short-read schedules; TLC '
             'proves EndsInBoundedCalls and EOFAbsorbing for the ideal and exhibits the never-ending behaviour of the historical size-0 buffer. Real '
             'runs: model-guided mutations of well-formed streams (every declared length field x {0,1,true-1,true+1,max}, truncations, corruption, '
-            'garbage, empty, units of 12..400 contiguous packets) x packet size {auto,188,192,204,189} x four reader kinds x {NextPacket, NextData}; Mon_C03 requires no panic, monotone '
+            'garbage, empty, units of 12..400 contiguous packets) x packet size {auto,188,192,204,189,257,1024} x four reader kinds x {NextPacket, NextData}; Mon_C03 requires no panic, monotone '
             'consumption, ErrNoMorePackets within |input|+2 calls and absorbing. TLA+ does not predict panics: absence is asserted on the inputs run. '
             'Reader.tla is bound to the code: every NextPacket call of 4 620 (quick) reader configurations must be a result Reader!Call allows '
             '(Mon_Reader).',
@@ -68,7 +68,8 @@ CLAIMS['C07'] = {
             'null/adaptation-only/transport-error packet inserted at every position, and with one corruption per PID; Mon_C07 requires every PID\'s '
             'delivered sequence (digest of the whole DemuxerData) to equal the base run\'s, except on the corrupted PID; a PID whose own sequence '
             'holds an exact copy of a table-completing packet delivers the same whether the copy is adjacent or behind a foreign packet, and so does '
-            'a PID whose input ends between two of its packets and goes on later.',
+            'a PID whose input ends between two of its packets and goes on later; up to 140 000 foreign packets (null, or different and never starting a '
+            'unit) between two packets of a PID change nothing.',
     'note': TRUST, 'technique': 'TLA+ enumeration of schedules (TLC) + trace validation of real-code runs (Mon_C07)', 'ref': 'DESIGN.md 4 C07'}
 CLAIMS['C08'] = {
     'text': 'Reader.tla (short-read schedules x reader kinds x auto/explicit) model-checked for SameAsFull; counterexample for single-Read peek. Real '
@@ -82,7 +83,7 @@ CLAIMS['C19'] = {
             'skipper, on the filtered stream, with an observing and with a replacing PacketsParser; Mon_C19 requires: callback sequence = stream '
             'packets (once, in order, header/AF parsed), packets and data equal to the filtered stream\'s, observer leaves output unchanged and is '
             'handed each unit once per PID (non-empty, single PID, arrival order), replacing parser\'s data (one or two per unit, with and without first packet) delivered exactly, with the content they had when returned; '
-            'runs of more than 65 536 skipped packets are counted.',
+            'runs of more than 65 536 skipped packets and skipped packets with an over-long adaptation_field_length are counted.',
     'note': TRUST, 'technique': 'TLA+-generated scenarios + trace validation of real-code runs (Mon_C19)', 'ref': 'DESIGN.md 4 C19'}
 CLAIMS['C20'] = {
     'text': 'For streams generated from Demux.tla and the seeded reference multiplexer x {explicit, auto}: every number k of NextData calls before '
@@ -90,14 +91,16 @@ CLAIMS['C20'] = {
             'deliveries to equal a fresh Demuxer\'s. Demux.tla models Rewind (pool and data buffer replaced, program map kept): C20_RewindFresh is '
             'model-checked for every consumption point, with counterexamples for a kept data buffer and for PMTs preceding their PAT; on a reader that '
             'cannot seek the absence of residue is checked against a fresh Demuxer over the rest of the input (C20_NoSeekClean); Rewind after a reader '
-            'error, with a cancelled context and followed by NextPacket each have their own reference run.',
+            'error, with a cancelled context, followed by NextPacket, behind a half-parsed unit and onto new content of another packet size each have '
+            'their own reference run.',
     'note': TRUST, 'technique': 'TLA+ model checking (TLC) + TLA+-generated scenarios + exhaustive call-count enumeration judged by trace validation (Mon_C20)', 'ref': 'DESIGN.md 4 C20, 13.7'}
 CODEC_NOTE = TRUST + ' Numeric ranges are covered structurally (0, max, every single-bit value, flag subsets, boundary lengths, seeded random), not exhaustively (DESIGN.md 6).'
 CLAIMS['C09'] = {
     'text': 'Every single-bit flip (exhaustive per unit), byte substitutions, bursts <= 32 bits, truncations and extensions of seeded units of all six '
             'table kinds are demuxed by the real Demuxer; Mon_C09 recomputes the outcome with an independent TLA+ reference decoder (pointer_field, '
             'table_id, section_length, bitwise CRC-32/MPEG-2) and requires: never an altered table, all tables when the reference accepts the whole '
-            'unit; every second bit flip is also sent as a damaged repetition behind the clean unit through the same Demuxer. Every PAT/PMT payload the real Muxer emits (descriptors of all kinds, struct Length correct/0/wrong) must hold exactly one '
+            'unit, never a table for a section whose CRC_32 the reference rejects (also the right checksum in the wrong byte order); every second bit flip '
+            'is also sent as a damaged repetition behind the clean unit through the same Demuxer. Every PAT/PMT payload the real Muxer emits (descriptors of all kinds, struct Length correct/0/wrong) must hold exactly one '
             'section the reference decoder accepts.',
     'note': CODEC_NOTE, 'technique': 'TLA+ reference decoder evaluated by TLC over fault-enumerated real-code traces (Mon_C09)', 'ref': 'DESIGN.md 4 C09'}
 CLAIMS['C10'] = {
